@@ -11,6 +11,7 @@ import (
 	"path/filepath"
 	"sort"
 	"strings"
+	"sync/atomic"
 	"time"
 
 	"github.com/nuetzliches/hookaido/internal/app"
@@ -97,7 +98,7 @@ var bootSeq int64
 
 func bootGroup(opt options, tab *Table, fr Frame, backend string) (*group, error) {
 	g := &group{opt: opt, tab: tab, pol: fr.Pol, lim: fr.Lim, q: fr.Q, backend: backend}
-	g.dir = filepath.Join(opt.scratch, fmt.Sprintf("pub-%d-%s-%s-%s-%s-%d", os.Getpid(), fr.Pol, fr.Lim, fr.Q, backend, time.Now().UnixNano()))
+	g.dir = filepath.Join(opt.scratch, fmt.Sprintf("pub-%d-%s-%s-%s-%s-%d", os.Getpid(), fr.Pol, fr.Lim, fr.Q, backend, atomic.AddInt64(&bootSeq, 1)))
 	text := configText(tab, fr.Pol, fr.Lim, backend)
 	db := ""
 	if backend == "sqlite" {
